@@ -20,6 +20,8 @@ import (
 
 const repoDir = "/repo"
 
+var progressEvery time.Duration
+
 var verifDir = "/verif"
 
 // Program is the SSA of /repo's current working tree with the harness overlay injected.
@@ -117,7 +119,7 @@ func (j *Job) String() string {
 
 func fallbackKinds(primary string) []string {
 	var r []string
-	for _, k := range []string{"z3", "cvc5-int", "z3-new"} {
+	for _, k := range []string{"z3-new", "cvc5", "z3", "cvc5-int"} {
 		if k != primary {
 			r = append(r, k)
 		}
@@ -141,7 +143,7 @@ func runJob(p *Program, j *Job, trace bool, smtlog string, conc *replayVec) *Job
 	}
 	kind := j.Solver
 	if kind == "" {
-		kind = "z3"
+		kind = "z3-new"
 	}
 	to := j.Timeout
 	if to == 0 {
@@ -155,10 +157,17 @@ func runJob(p *Program, j *Job, trace bool, smtlog string, conc *replayVec) *Job
 	x := &Exec{TB: newTB(), prog: p.prog, timeoutMs: to, res: res, params: j.Params, want: j.Want, trace: trace, merge: true,
 		pathLimit: j.Paths, maxViol: 3, ufSeen: map[int]bool{}, pdom: map[*ssa.Function]map[*ssa.BasicBlock]*ssa.BasicBlock{},
 		mcache: map[[2]int]bool{}, violSeen: map[string]int{}, fbKinds: fallbackKinds(kind), concrete: conc}
+	// the primary back end gets a short limit; whatever it cannot decide quickly goes to the
+	// other back ends with the full limit (z3 4.8 is the fastest per query but times out on
+	// some UF-heavy queries that z3 5.1 and cvc5 decide in under a second)
+	pto := to
+	if (kind == "z3" || kind == "z3-new") && pto > 5000 {
+		pto = 5000
+	}
 	if lw != nil {
-		x.sol = NewSolver(kind, to, lw, &res.Solver)
+		x.sol = NewSolver(kind, pto, lw, &res.Solver)
 	} else {
-		x.sol = NewSolver(kind, to, nil, &res.Solver)
+		x.sol = NewSolver(kind, pto, nil, &res.Solver)
 	}
 	x.fallbacks = make([]*Solver, len(x.fbKinds))
 	defer func() {
@@ -267,18 +276,20 @@ func main() {
 		entry := fs.String("entry", "", "harness entry function")
 		params := fs.String("params", "", "k=v,...")
 		want := fs.String("want", "", "obligation prefixes, comma separated")
-		solver := fs.String("solver", "z3", "primary back end")
+		solver := fs.String("solver", "z3-new", "primary back end")
 		trace := fs.Bool("trace", false, "trace instructions")
 		smtlog := fs.String("smtlog", "", "write SMT commands to file")
 		limit := fs.Int("limit", 0, "path limit")
 		verbose := fs.Bool("v", false, "print fork sites and function counts")
+		budget := fs.Int("budget", 0, "wall-clock budget in seconds")
 		fs.Parse(os.Args[2:])
 		p, err := loadProgram(".", "./timer")
 		if err != nil {
 			fmt.Fprintln(os.Stderr, err)
 			os.Exit(2)
 		}
-		j := &Job{Pkg: *pkg, Entry: *entry, Params: parseParams(*params), Solver: *solver, Paths: *limit}
+		j := &Job{Pkg: *pkg, Entry: *entry, Params: parseParams(*params), Solver: *solver, Paths: *limit, BudgetS: *budget}
+		progressEvery = 10 * time.Second
 		if *want != "" {
 			j.Want = strings.Split(*want, ",")
 		}
@@ -309,6 +320,8 @@ func main() {
 		os.Exit(cmdCheck(os.Args[2:]))
 	case "replay":
 		os.Exit(cmdReplay(os.Args[2:]))
+	case "sweep":
+		os.Exit(cmdSweep(os.Args[2:]))
 	default:
 		fmt.Fprintln(os.Stderr, "unknown command")
 		os.Exit(2)
